@@ -23,7 +23,7 @@ FAMILIES = {
     "log10": "uninterpreted; strictly increasing on pairs of positive arguments",
     "log": "uninterpreted; strictly increasing on pairs of positive arguments",
     "pow": "uninterpreted",
-    "spacing": "spacing(x)>0",
+    "spacing": "0 < spacing(x) <= 2.3e-16*|x| + 1e-300 (one unit in the last place of a binary64 number)",
 }
 
 
@@ -111,7 +111,9 @@ def instantiate(ctx, start):
             out.append(c > 0)
             out.append(z3.Implies(args[0] == 0, c == 1))
         elif name == "spacing":
+            x = args[0]
             out.append(c > 0)
+            out.append(c <= z3.RealVal("2.3e-16") * z3.If(x >= 0, x, -x) + z3.RealVal("1e-300"))
         # pairwise monotonicity / functional consistency with earlier applications of the same symbol
         for (n2, a2, c2) in ctx.uf_list[: i - 1]:
             if n2 != name:
